@@ -307,6 +307,43 @@ def threshold_at_metric(ctx, chk):
             b = cap[0]
             chk.violation("R17.5", TAM, inst, "x=%s y=%s t=%s" % tuple(show(b.get(k), 120) if b.get(k) is not None else "?" for k in ("x", "y", "t")),
                           "one points value feeds x and the metric evaluation; t = target", ctx.where(TAM))
+    # metrics given by NAME evaluate on the same points as a callable would (all scores of both classes / the same grid)
+    from .thr import METRICS, ALIASES
+    for name in list(METRICS) + list(ALIASES):
+        for mode, pts in (("all", Const(None)), ("int", modes["int"])):
+            del cap[:]
+            ev.stubs[Q] = stub
+            rate_calls = []
+
+            def st_rate(ev_, fi, bound):
+                rate_calls.append(dict(bound))
+                return App("RATE", (bound.get("threshold", Const("?")),))
+            ev.stubs[SCORES + "." + name] = st_rate
+            try:
+                outs = ctx.explore(lambda: ev.call(ctx.method(ctx.scores_obj("pos", "pos"), "threshold_at_metric"), [target, Const(name)], {"points": pts}), chk)
+            finally:
+                ev.stubs.pop(Q, None)
+                ev.stubs.pop(SCORES + "." + name, None)
+            inst = "named:%s:points=%s" % (name, mode)
+            if not returns(outs) or not cap:
+                chk.unknown("R17.5", "threshold_at_metric(%s): %d return paths, %d inversions" % (inst, len(returns(outs)), len(cap)))
+                continue
+            bad = None
+            for b in cap:
+                x, y = b.get("x"), b.get("y")
+                if mode == "all":
+                    okx = isinstance(x, App) and x.fn == "sort" and isinstance(x.args[0], App) and x.args[0].fn == "concat" and sorted(a.key for a in x.args[0].args) == sorted([POS.key, NEG.key])
+                else:
+                    okx = isinstance(x, App) and x.fn == "linspace" and len(x.args) >= 3 and x.args[2] == pts and x.kwd("dtype") is None and \
+                        POS.key in x.args[0].key and NEG.key in x.args[0].key and POS.key in x.args[1].key and NEG.key in x.args[1].key
+                oky = y == App("RATE", (x,))
+                if not (okx and oky):
+                    bad = (x, y)
+            if bad is None:
+                chk.hold("R17.5", inst, "metric name %r: same evaluation points as for a callable; y = the named rate at those points" % name, nontrivial=False)
+            else:
+                chk.violation("R17.5", TAM, inst, "x=%s y=%s" % (show(bad[0], 120) if bad[0] is not None else "?", show(bad[1], 80) if bad[1] is not None else "?"),
+                              "points = all scores of both classes (sorted) / k evenly spaced points spanning them, whatever metric is named", ctx.where(TAM))
     # name resolution through type(self)
     seen = []
 
